@@ -5,7 +5,7 @@
    meaning, one of these proofs fails. *)
 From Coq Require Import NArith Arith List Bool Lia.
 From AV Require Import Generated.Table Spec.Utf8 Spec.Vt Spec.Sgr Spec.Io Model.Base Model.Imp Model.Utf8parse Model.Parser
-  Model.Strip Model.Wincon Model.Stream Model.WinconStream Generated.WinconStreamFn.
+  Model.Strip Model.Wincon Model.Stream Model.WinconStream Generated.WinconStreamFn Generated.WinconFn.
 Import ListNotations.
 Local Open Scope N_scope.
 
@@ -168,3 +168,60 @@ Proof.
   destruct (g_wcs_op x o) as [[x1 r]|]; [|reflexivity].
   rewrite <- IH. destruct (g_wcs_run x1 rest) as [[x2 rs]|]; reflexivity.
 Qed.
+
+(* ---- the constructors / accessors: WinconStream::{new, into_inner, is_terminal, lock}, translated ---------------- *)
+Lemma g_wcs_new_eq cf raw : g_wcs_new cf raw = mkWCS raw ws_new.
+Proof. reflexivity. Qed.
+Lemma g_wcs_into_inner_eq cf x : g_wcs_into_inner cf x = wcs_raw x.
+Proof. reflexivity. Qed.
+Lemma g_wcs_is_terminal_eq cf x : g_wcs_is_terminal cf x = ac_tty cf.
+Proof. reflexivity. Qed.
+(* `lock` hands the state at the time of the call to the locked stream, and the console it writes to is the same *)
+Lemma g_wcs_lock_stdout_eq cf x : g_wcs_lock_stdout cf x = x.
+Proof. destruct x; reflexivity. Qed.
+Lemma g_wcs_lock_stderr_eq cf x : g_wcs_lock_stderr cf x = x.
+Proof. destruct x; reflexivity. Qed.
+
+Lemma g_wcs_run_app ops1 : forall ops2 x,
+  g_wcs_run x (ops1 ++ ops2) =
+  match g_wcs_run x ops1 with
+  | Some (x1, rs1) => match g_wcs_run x1 ops2 with Some (x2, rs2) => Some (x2, rs1 ++ rs2) | None => None end
+  | None => None
+  end.
+Proof.
+  induction ops1 as [|o rest IH]; intros ops2 x; cbn [app g_wcs_run].
+  - destruct (g_wcs_run x ops2) as [[x2 rs2]|]; reflexivity.
+  - destruct (g_wcs_op x o) as [[x1 r]|]; [|reflexivity]. cbv beta iota. rewrite IH.
+    destruct (g_wcs_run x1 rest) as [[x2 rs]|]; [|reflexivity]. cbv beta iota.
+    destruct (g_wcs_run x2 ops2) as [[x3 rs3]|]; reflexivity.
+Qed.
+
+(* operations, lock, more operations = the same operations without the lock (for either handle) *)
+Theorem translated_wincon_lock_preserves_state : forall cf x ops1 ops2,
+  match g_wcs_run x ops1 with
+  | Some (x1, rs1) =>
+      match g_wcs_run (g_wcs_lock_stdout cf x1) ops2 with Some (x2, rs2) => Some (x2, rs1 ++ rs2) | None => None end
+  | None => None
+  end = g_wcs_run x (ops1 ++ ops2) /\
+  match g_wcs_run x ops1 with
+  | Some (x1, rs1) =>
+      match g_wcs_run (g_wcs_lock_stderr cf x1) ops2 with Some (x2, rs2) => Some (x2, rs1 ++ rs2) | None => None end
+  | None => None
+  end = g_wcs_run x (ops1 ++ ops2).
+Proof.
+  intros cf x ops1 ops2. rewrite g_wcs_run_app.
+  destruct (g_wcs_run x ops1) as [[x1 rs1]|]; [|split; reflexivity].
+  rewrite g_wcs_lock_stdout_eq, g_wcs_lock_stderr_eq. split; reflexivity.
+Qed.
+
+(* a stream made by `new`, driven by any operations, then taken apart: the hand model from its initial state *)
+Theorem translated_wincon_new_run_into_inner : forall cf raw ops,
+  match g_wcs_run (g_wcs_new cf raw) ops with
+  | Some (x1, rs) => Some (wcs_state x1, g_wcs_into_inner cf x1, rs)
+  | None => None
+  end = wc_run_ops ws_new raw ops.
+Proof. intros. rewrite g_wcs_new_eq. exact (translated_wincon_stream_is_model ops (mkWCS raw ws_new)). Qed.
+
+(* the initial state `state: Default::default()` names (ws_new) is the TRANSLATED WinconBytes::new (Generated/WinconFn.v) *)
+Lemma ws_new_is_translated_new : ws_new = mkWS (wb_parser g_wb_new) (wb_capture g_wb_new).
+Proof. reflexivity. Qed.
